@@ -166,4 +166,19 @@ PROPS = {
             "orderby keys are injective functions of the element (ties are exempt by the property)",
         ],
     },
+    "C09": {
+        "level": "exploration",
+        "technique": "property-based testing (rapid): generated patterns x values (instances of the pattern, one-step near-misses, unrelated) in let / function parameter / cond, compared with a structural reference matcher",
+        "level_text": "Generated-input search: patterns from number/string literals, names (15% repeated), _, (expr), array patterns with ...rest at any position and trailing "
+                      "?fallbacks, tuple and dict patterns with ?: fallbacks and ...rest, nested to depth 2 (thorough 3); values built from the pattern by substitution, a one-step "
+                      "mutation of such an instance (element changed/removed/added, offset shifted, kind changed), or unrelated, rendered as sugar or spelled-out literals. The reference matcher "
+                      "implements the property literally (the pattern read as an expression must rebuild the value). let and function application must bind exactly the model bindings or fail; "
+                      "cond must take the first arm whose pattern matches (two pattern arms + default).",
+        "level_note": "Trusted: the reference matcher in c09_test.go (150 lines), rapid. One open known finding pinned by the repository's own tests (dict pattern with a fallback entry tolerates extra keys).",
+        "tests": [{"name": "TestC09", "quick": 2500, "thorough": 30000}],
+        "rule": "non-trivial: the pattern has a rest, a fallback, a repeated name or an (expr) item, or nesting depth >= 2, or the value is a near-miss. Distinct = distinct program text.",
+        "assumptions": COMMON_ASSUMPTIONS + [
+            "set patterns and patterns with two rests are not generated (documented as unsupported; C10 checks that they are rejected without a crash)",
+        ],
+    },
 }
